@@ -153,13 +153,19 @@ def intBody? : Str → Option Str
       | d :: t, acc => if isDecimalCh d then go t (d :: acc) else none
     go t [c]
 
+/-- optional leading `-` or `+` -/
+def signSplit2 (v : Str) : Bool × Str :=
+  match v with
+  | '-' :: r => (true, r)
+  | '+' :: r => (false, r)
+  | _ => (false, v)
+
 /-- `int(s)` for text: whitespace stripped, optional sign, decimal digits with `_` separators.
 Exact for latin-1 text (the only decimal digits below U+0100 are ASCII, by the generated table). -/
 def pyInt (s : Str) : Except String Int :=
-  let v := strip s
-  let (neg, body) := match v with | '-' :: r => (true, r) | '+' :: r => (false, r) | _ => (false, v)
-  match intBody? body with
-  | some ds => .ok (if neg then - (digitsVal ds : Int) else (digitsVal ds : Int))
+  let sb := signSplit2 (strip s)
+  match intBody? sb.2 with
+  | some ds => .ok (if sb.1 then - (digitsVal ds : Int) else (digitsVal ds : Int))
   | none => .error "ValueError"
 
 /-! ### quoting -/
@@ -554,9 +560,15 @@ structure RangeV where
   ranges : List (Int × Option Int)
   deriving DecidableEq
 
+/-- `end is not None and (start < 0 or start >= end)` -/
+def badRange (r : Int × Option Int) : Bool :=
+  match r.2 with
+  | some e => r.1 < 0 || r.1 ≥ e
+  | none => false
+
 /-- the validation loop of `Range.__init__` (ValueError) -/
 def rangeCtor (units : Str) (ranges : List (Int × Option Int)) : Except String RangeV :=
-  if ranges.any (fun (s, e) => match e with | some e => s < 0 || s ≥ e | none => false)
+  if ranges.any badRange
   then .error "ValueError" else .ok ⟨units, ranges⟩
 
 /-- `Range.to_header()` -/
@@ -621,12 +633,22 @@ structure ContentRangeV where
   length : Option Int
   deriving DecidableEq
 
+/-- the length field of a Content-Range -/
+def lenText : Option Int → Str
+  | none => ['*']
+  | some l => intText l
+
+/-- the length field read back: `some none` for `*`; `none` = `return None` -/
+def parseLength (lengthStr : Str) : Except String (Option (Option Int)) :=
+  if lengthStr == ['*'] then pure (some none)
+  else catching ["ValueError"] ((plainInt lengthStr).map (fun l => some (some l))) none
+
 /-- `ContentRange.to_header()` -/
 def contentRangeToHeader (c : ContentRangeV) : Str :=
   match c.units with
   | none => []
   | some u =>
-    let len := match c.length with | none => ['*'] | some l => intText l
+    let len := lenText c.length
     match c.start, c.stop with
     | some s, some e => u ++ ' ' :: intText s ++ '-' :: intText (e - 1) ++ '/' :: len
     | _, _ => u ++ " */".toList ++ len
@@ -645,9 +667,7 @@ def parseContentRangeHeader (value : Str) : Except String (Option ContentRangeV)
   | some (units, rangedef) =>
     if !rangedef.contains '/' then return none
     let (rng, _, lengthStr) := partition '/' rangedef
-    let length ← if lengthStr == ['*'] then pure (some none)
-      else catching ["ValueError"] ((plainInt lengthStr).map (fun l => some (some l))) none
-    match length with
+    match ← parseLength lengthStr with
     | none => return none
     | some length =>
       if rng == ['*'] then
